@@ -36,16 +36,17 @@ import (
 type Fix struct {
 	E *sim.Env
 
-	Owner, Other, LP, Admin, Risk, Newbie sdk.AccAddress
+	Owner, Other, LP, Admin, Risk, Newbie, RiskTwin sdk.AccAddress
 
 	// assets
-	CMDX, CMST, HARBOR, ATOM, USDC, GOVC, CCMDX, CCMST, CATOM uint64
+	CMDX, CMST, HARBOR, ATOM, USDC, GOVC, CCMDX, CCMST, CATOM, GOVT, CUSDC, FEED uint64
 	// apps
-	AppHarbor, AppCommodo, AppCswap, AppDecoy uint64
+	AppHarbor, AppCommodo, AppCswap, AppDecoy, AppTwin uint64
 	// vault products
-	EpCmdx, EpAtom, EpStable, EpStable2 uint64
+	EpCmdx, EpAtom, EpStable, EpStable2, EpTwin uint64
 	// lend
 	Pool, PairCmdxCmst, PairAtomCmst, PairCmdxAtom uint64
+	PoolTwo, PairCross uint64 // second pool (main asset USDC) and the inter-pool pair CMDX -> USDC
 	// liquidity
 	LPair, LPool uint64
 	AltPair, DecoyPair uint64 // another pair of the same app / a pair of a second liquidity app, with colliding order ids
@@ -70,7 +71,7 @@ func mustOK(r sim.Result, what string) {
 func coin(denom string, n int64) sdk.Coin { return sdk.NewCoin(denom, i(n)) }
 
 var denomOf = map[string]string{"CMDX": "ucmdx", "CMST": "ucmst", "HARBOR": "uharbor", "ATOM": "uatom", "USDC": "uusdc",
-	"GOVC": "ugovc", "CCMDX": "uccmdx", "CCMST": "uccmst", "CATOM": "ucatom"}
+	"GOVC": "ugovc", "GOVT": "ugovt", "CUSDC": "ucusdc", "FEED": "ufeed", "CCMDX": "uccmdx", "CCMST": "uccmst", "CATOM": "ucatom"}
 
 func (f *Fix) addAsset(name string, priced, mintable bool) uint64 {
 	e := f.E
@@ -159,7 +160,7 @@ func fund(e *sim.Env, to sdk.AccAddress, coins ...sdk.Coin) {
 // authorisation logic and not for lack of funds.
 func NewFixture() *Fix {
 	e := sim.New(nil)
-	f := &Fix{E: e, Owner: sim.Addr("owner"), Other: sim.Addr("other"), LP: sim.Addr("lp"), Admin: sim.Addr("admin"), Risk: sim.Addr("risk"), Newbie: sim.Addr("newbie")}
+	f := &Fix{E: e, Owner: sim.Addr("owner"), Other: sim.Addr("other"), LP: sim.Addr("lp"), Admin: sim.Addr("admin"), Risk: sim.Addr("risk"), Newbie: sim.Addr("newbie"), RiskTwin: sim.Addr("risktwin")}
 
 	f.CMDX = f.addAsset("CMDX", true, false)
 	f.CMST = f.addAsset("CMST", true, true)
@@ -182,8 +183,15 @@ func NewFixture() *Fix {
 	f.AppCommodo = f.addApp("commodo", "cmdo", f.GOVC, f.LP)
 	f.AppCswap = f.addApp("cswap", "cswap", 0, nil)
 	f.AppDecoy = f.addApp("decoy", "decoy", 0, nil)
+	// a second vault app ("twin") that sits in the same liquidation / auction loops as harbor
+	f.GOVT = f.addAsset("GOVT", false, false)
+	f.CUSDC = f.addAsset("CUSDC", false, false)
+	// an oracle-priced asset that no position uses: switching its feed off blocks the shutdown price snapshot and nothing else
+	f.FEED = f.addAsset("FEED", true, false)
+	SetPrice(e, f.FEED, 1000000, true)
+	f.AppTwin = f.addApp("twinvault", "twin", f.GOVT, f.LP)
 
-	for _, u := range []sdk.AccAddress{f.Owner, f.Other, f.LP, f.Risk, f.Newbie} {
+	for _, u := range []sdk.AccAddress{f.Owner, f.Other, f.LP, f.Risk, f.Newbie, f.RiskTwin} {
 		fund(e, u, coin("ucmdx", 1000000*unit), coin("ucmst", 1000000*unit), coin("uatom", 1000000*unit), coin("uusdc", 1000000*unit))
 	}
 	fund(e, f.Admin, coin("ucmdx", 10*unit))
@@ -191,6 +199,7 @@ func NewFixture() *Fix {
 	// governance tokens of both apps (genesis mint through the tokenmint message)
 	mustOK(e.Deliver(&tokenminttypes.MsgMintNewTokensRequest{From: f.LP.String(), AppId: f.AppHarbor, AssetId: f.HARBOR}), "mint harbor")
 	mustOK(e.Deliver(&tokenminttypes.MsgMintNewTokensRequest{From: f.LP.String(), AppId: f.AppCommodo, AssetId: f.GOVC}), "mint govc")
+	mustOK(e.Deliver(&tokenminttypes.MsgMintNewTokensRequest{From: f.LP.String(), AppId: f.AppTwin, AssetId: f.GOVT}), "mint govt")
 
 	// ---- vault products (app harbor)
 	p1 := f.addPair(f.CMDX, f.CMST)
@@ -200,6 +209,7 @@ func NewFixture() *Fix {
 	f.EpAtom = f.addExtPair(f.AppHarbor, p2, "ATOM-A", false, false, "0.01")
 	f.EpStable = f.addExtPair(f.AppHarbor, p3, "USDC-PSM", true, false, "0.01")
 	f.EpStable2 = f.addExtPair(f.AppHarbor, p3, "USDC-PSMB", true, false, "0.01")
+	f.EpTwin = f.addExtPair(f.AppTwin, p1, "CMDX-T", false, true, "0.01")
 
 	// ---- collector / locker configuration (app harbor, CMST)
 	must(e.App.CollectorKeeper.WasmSetCollectorLookupTable(e.Ctx, &bindings.MsgSetCollectorLookupTable{AppID: f.AppHarbor,
@@ -220,7 +230,7 @@ func NewFixture() *Fix {
 	// ---- liquidation / auction configuration
 	dutch := liquidationsV2types.DutchAuctionParam{Premium: d("1.2"), Discount: d("0.7"), DecrementFactor: i(1)}
 	english := liquidationsV2types.EnglishAuctionParam{DecrementFactor: i(1)}
-	for _, app := range []uint64{f.AppHarbor, f.AppCommodo} {
+	for _, app := range []uint64{f.AppHarbor, f.AppCommodo, f.AppTwin} {
 		e.App.NewliqKeeper.SetLiquidationWhiteListing(e.Ctx, liquidationsV2types.LiquidationWhiteListing{AppId: app, Initiator: true,
 			IsDutchActivated: true, DutchAuctionParam: &dutch, IsEnglishActivated: true, EnglishAuctionParam: &english, KeeeperIncentive: d("0.1")})
 	}
@@ -228,7 +238,8 @@ func NewFixture() *Fix {
 		WithdrawalFee: d("0.0"), ClosingFee: d("0.0"), MinUsdValueLeft: 100000, BidFactor: d("0.1"), LiquidationPenalty: d("0.1"), AuctionBonus: d("0.0")})
 	// V1 liquidation whitelist + V1 auction params (the V1 hooks are called directly, they are not wired in the app)
 	must(e.App.LiquidationKeeper.WasmWhitelistAppIDLiquidation(e.Ctx, f.AppHarbor))
-	for _, app := range []uint64{f.AppHarbor, f.AppCommodo} {
+	must(e.App.LiquidationKeeper.WasmWhitelistAppIDLiquidation(e.Ctx, f.AppTwin))
+	for _, app := range []uint64{f.AppHarbor, f.AppCommodo, f.AppTwin} {
 		must(e.App.AuctionKeeper.AddAuctionParams(e.Ctx, &bindings.MsgAddAuctionParams{AppID: app, AuctionDurationSeconds: 3600,
 			Buffer: d("1.2"), Cusp: d("0.7"), Step: 360, PriceFunctionType: 1, SurplusID: 1, DebtID: 2, DutchID: 3, BidDurationSeconds: 600}))
 	}
@@ -238,7 +249,7 @@ func NewFixture() *Fix {
 		app  uint64
 		gov  string
 		debt uint64
-	}{{f.AppHarbor, "uharbor", f.CMST}, {f.AppCommodo, "ugovc", f.CMST}} {
+	}{{f.AppHarbor, "uharbor", f.CMST}, {f.AppCommodo, "ugovc", f.CMST}, {f.AppTwin, "ugovt", f.CMST}} {
 		must(e.App.EsmKeeper.AddESMTriggerParamsForApp(e.Ctx, &bindings.MsgAddESMTriggerParams{AppID: x.app,
 			TargetValue: coin(x.gov, 1000*unit), CoolOffPeriod: 3600, AssetID: []uint64{x.debt}, Rates: []uint64{1000000}}))
 	}
@@ -250,6 +261,7 @@ func NewFixture() *Fix {
 		mustOK(e.Deliver(&vaulttypes.MsgCreateRequest{From: u.String(), AppId: f.AppHarbor, ExtendedPairVaultId: f.EpAtom, AmountIn: i(100 * unit), AmountOut: i(300 * unit)}), "vault create atom")
 	}
 	// a vault just above the minimum ratio: becomes unsafe when the hook cells lower the CMDX price
+	mustOK(e.Deliver(&vaulttypes.MsgCreateRequest{From: f.RiskTwin.String(), AppId: f.AppTwin, ExtendedPairVaultId: f.EpTwin, AmountIn: i(1000 * unit), AmountOut: i(1300 * unit)}), "risk vault of the twin app")
 	mustOK(e.Deliver(&vaulttypes.MsgCreateRequest{From: f.Risk.String(), AppId: f.AppHarbor, ExtendedPairVaultId: f.EpCmdx, AmountIn: i(1000 * unit), AmountOut: i(1300 * unit)}), "risk vault")
 	mustOK(e.Deliver(&vaulttypes.MsgCreateStableMintRequest{From: f.LP.String(), AppId: f.AppHarbor, ExtendedPairVaultId: f.EpStable, Amount: i(5000 * unit)}), "stable create")
 
@@ -346,6 +358,35 @@ func (f *Fix) lendSetup() {
 	mustOK(e.Deliver(lendtypes.NewMsgBorrow(f.Owner.String(), lendOf(f.Owner, f.CMDX), f.PairCmdxCmst, false, coin("uccmdx", 1000*unit), coin("ucmst", 300*unit))), "owner borrow cmst")
 	mustOK(e.Deliver(lendtypes.NewMsgLend(f.Other.String(), f.ATOM, coin("uatom", 100*unit), f.Pool, f.AppCommodo)), "other lend atom")
 	mustOK(e.Deliver(lendtypes.NewMsgBorrow(f.Other.String(), lendOf(f.Other, f.CMDX), f.PairCmdxCmst, false, coin("uccmdx", 1000*unit), coin("ucmst", 300*unit))), "other borrow cmst")
+	// ---- a second pool (main asset USDC, the same two transit assets): adding it creates the inter-pool pairs between the main
+	// assets; owner and other each open a CROSS-POOL borrow (collateral CMDX, which is not a transit asset; debt USDC)
+	must(k.AddAssetRatesPoolPairs(e.Ctx, lendtypes.AssetRatesPoolPairs{AssetID: f.USDC, UOptimal: d("0.8"), Base: d("0.002"), Slope1: d("0.06"), Slope2: d("0.6"),
+		EnableStableBorrow: false, StableBase: d("0"), StableSlope1: d("0"), StableSlope2: d("0"), Ltv: d("0.8"), LiquidationThreshold: d("0.85"),
+		LiquidationPenalty: d("0.025"), LiquidationBonus: d("0.025"), ReserveFactor: d("0.1"), CAssetID: f.CUSDC,
+		ModuleName: "atom", CPoolName: "USDC-CMST-ATOM", AssetData: []*lendtypes.AssetDataPoolMapping{
+			{AssetID: f.USDC, AssetTransitType: 1, SupplyCap: sdk.NewDec(5000000000000000000)},
+			{AssetID: f.CMST, AssetTransitType: 2, SupplyCap: sdk.NewDec(5000000000000000000)},
+			{AssetID: f.ATOM, AssetTransitType: 3, SupplyCap: sdk.NewDec(5000000000000000000)}},
+		MinUsdValueLeft: 100000, IsIsolated: false}))
+	ps := k.GetPools(e.Ctx)
+	f.PoolTwo = ps[len(ps)-1].PoolID
+	for _, p := range k.GetLendPairs(e.Ctx) {
+		if p.IsInterPool && p.AssetIn == f.CMDX && p.AssetOut == f.USDC {
+			f.PairCross = p.Id
+		}
+	}
+	if f.PairCross == 0 {
+		panic(fmt.Sprintf("inter-pool pair not created: %+v", k.GetLendPairs(e.Ctx)))
+	}
+	for _, x := range []struct {
+		asset uint64
+		denom string
+	}{{f.USDC, "uusdc"}, {f.CMST, "ucmst"}, {f.ATOM, "uatom"}} {
+		mustOK(e.Deliver(lendtypes.NewMsgLend(f.LP.String(), x.asset, coin(x.denom, 100000*unit), f.PoolTwo, f.AppCommodo)), "lp lend pool two "+x.denom)
+	}
+	for _, u := range []sdk.AccAddress{f.Owner, f.Other} {
+		mustOK(e.Deliver(lendtypes.NewMsgBorrow(u.String(), lendOf(u, f.CMDX), f.PairCross, false, coin("uccmdx", 500*unit), coin("uusdc", 100*unit))), "cross-pool borrow")
+	}
 	// a borrow at the loan-to-value limit: becomes unsafe when the hook cells lower the CMDX price
 	mustOK(e.Deliver(lendtypes.NewMsgLend(f.Risk.String(), f.CMDX, coin("ucmdx", 1000*unit), f.Pool, f.AppCommodo)), "risk lend")
 	rl, _ := k.GetLendIDForAssetIDPoolID(e.Ctx, f.Risk.String(), f.CMDX, f.Pool)
